@@ -93,3 +93,50 @@ func VfC05_PushPull() {
 //vf:unwind 16
 //vf:bound state event buffer of length quick=2 thorough=3, each slot empty or a symbolic time with <=1 recorded event; names/payloads 1 symbolic byte; times below 2^62
 func VfC05_EventABA() { vfEventABA() }
+
+// VfC05_Concurrent: the same event arrives at once by gossip (NotifyMsg) and in
+// a state-sync payload (MergeRemoteState), which memberlist runs on different
+// goroutines: under every interleaving of the two handlers the application
+// sees it at most once, and exactly once when it is inside the window, not
+// before the cut-off and not yet recorded.
+//
+//vf:sched
+//vf:switches quick=2 thorough=4
+//vf:paths quick=600000 thorough=6000000
+//vf:unwind 16
+//vf:bound threads 2 concurrent deliveries of one event (symbolic time below 2^62, 1-byte symbolic name and payload); event buffer of length 2 with symbolic slots (<=1 record each)
+//vf:stub codec -> identity on tokens
+//vf:nonative
+func VfC05_Concurrent() {
+	n := 2
+	s := vfNewSerf("self", n)
+	vfArbEventBuffer(s, n)
+	t := vfU64("mt")
+	vfAssume(t < 1<<62)
+	name := string(vfFixedBytes("name", 1))
+	pl := vfFixedBytes("pl", 1)
+	clock := uint64(s.eventClock.Time())
+	after := vfIteU64(t >= clock, t+1, clock)
+	beforeMin := t < uint64(s.eventMinTime)
+	tooOld := vfAnd(after > uint64(n), t < after-uint64(n))
+	recorded := false
+	for _, slot := range s.eventBuffer {
+		if slot != nil {
+			for _, e := range slot.Events {
+				recorded = vfOr(recorded, vfAnd(uint64(slot.LTime) == t, vfAnd(e.Name == name, e.Payload[0] == pl[0])))
+			}
+		}
+	}
+	want := vfAnd(vfAnd(!beforeMin, !tooOld), !recorded)
+	d := &delegate{serf: s}
+	msg, _ := encodeMessage(messageUserEventType, &messageUserEvent{LTime: LamportTime(t), Name: name, Payload: pl}, false)
+	pp := messagePushPull{Events: []*userEvents{{LTime: LamportTime(t), Events: []userEvent{{Name: name, Payload: pl}}}}}
+	ppb, _ := encodeMessage(messagePushPullType, &pp, false)
+	vfGo(func() { d.MergeRemoteState(ppb, false) })
+	d.NotifyMsg(msg)
+	vfWaitThreads()
+	evs := vfDrainEvents(s)
+	vfReach("C05.concurrent.done")
+	vfAssert("C05.concurrent.atmostonce", len(evs) <= 1)
+	vfAssert("C05.concurrent.delivered.iff", (len(evs) == 1) == want)
+}
